@@ -2819,6 +2819,10 @@ static cfg_opt_t *cfg_getopt_array(cfg_opt_t *rootopts, int cfg_flags, const cha
 			/* no more subsections */
 			break;
 
+		/* A path cannot begin with a separator */
+		if (!len)
+			return NULL;
+
 		if (len) {
 			cfg_opt_t *secopt;
 
